@@ -33,6 +33,7 @@ inductive Ref where
   | holder | sender | receiver | from_ | erc20Contract | pair_GetERC20Contract
   | bridgeToken | coin | targetCoin | baseCoin | ibcCoin | addBridgeFee | coins
   | mintCoins | unlockCoins | erc20types_ModuleName | tokenPair_GetERC20Contract | amount
+  | crosschaintypes_GetAddress | evmtypes_ModuleName | totalCoins
   | none | other
   deriving DecidableEq, Repr
 
